@@ -21,6 +21,7 @@ mod p_history;
 mod p_frontend;
 mod p_scoping;
 mod p_cldb;
+mod p_hier;
 mod p_reader;
 mod p_repl;
 mod p_symbols;
@@ -59,6 +60,7 @@ fn handle_op(job: &Value) -> Value {
         "repl" => p_repl::op_repl(job),
         "parse" => p_reader::op_parse(job),
         "cldb" => p_cldb::op_cldb(job),
+        "hier" => p_hier::op_hier(job),
         "frontend" => p_frontend::op_frontend(job),
         "modrun" => p_repl::op_modrun(job),
         "ping" => json!({"pong": true}),
@@ -90,6 +92,8 @@ fn real_main() {
         "drive-scoping" => p_scoping::drive(&rest),
         "drive-cldb" => p_cldb::drive(&rest),
         "replay-cldb" => p_cldb::replay(&rest),
+        "drive-hier" => p_hier::drive(&rest),
+        "replay-hier" => p_hier::replay(&rest),
         "drive-reader" => p_reader::drive(&rest),
         "replay-reader" => p_reader::replay(&rest),
         "drive-repl" => p_repl::drive(&rest),
